@@ -231,6 +231,7 @@ func cmdSeeded(args []string) int {
 	ids := fs.String("ids", "", "only these (comma separated, e.g. C01-A)")
 	props := fs.String("props", "", "only these properties")
 	worker := fs.Bool("worker", false, "")
+	show := fs.Bool("show", false, "print the reporting obligations of detected changes")
 	allr := fs.Bool("allrules", false, "judge each change by every rule (any property), not only its own property's")
 	j := fs.Int("j", 12, "")
 	fs.Parse(args)
@@ -259,6 +260,8 @@ func cmdSeeded(args []string) int {
 		cnt[r.Status]++
 		if r.Status != "detected" {
 			fmt.Printf("%-9s %-8s %s\n", r.Status, r.ID, r.Detail)
+		} else if *show {
+			fmt.Printf("%-9s %-8s %s\n", r.Status, r.ID, strings.Join(r.Keys, " | "))
 		}
 	}
 	fmt.Printf("seeded: total=%d detected=%d missed=%d stale=%d broken=%d\n", len(results), cnt["detected"], cnt["missed"], cnt["stale"], cnt["broken"])
